@@ -144,7 +144,7 @@ func runScenario(c *core.Ctx, sc scenario, seed int64) ([]any, error) {
 		return nil, fmt.Errorf("%s: batch failed: %v", sc.Name, werr)
 	}
 	r.StopSampler()
-	quiet := r.Quiesce(30 * time.Second)
+	quiet := r.Settle(30 * time.Second)
 	if quiet {
 		r.Sample("quiescent")
 	}
